@@ -286,7 +286,7 @@ def heldup_cases():
     ms = 80
     hold = dict(k="sleep", us=4 * ms * 1000)
     for bind, flat, states, tstates in [
-            ("Bind", False, ["A"], ["TA"]), ("BindMany", False, ["A", "B"], ["A", "B"]),
+            ("Bind", False, ["A"], ["TA"]), ("BindMany", False, ["B", "A"], ["TB", "TA"]),
             ("BindReady", False, ["Ready"], ["TReady"]), ("BindStart", False, ["Start"], ["Start"]),
             ("Manual", False, ["A"], ["A"]), ("Manual", True, ["A"], ["A"])]:
         script = [src("add", states[:1]), dict(k="relany"), hold, dict(k="stepany"),
@@ -317,7 +317,9 @@ def rand_cases(rng, n, gated):
             tstates = ["T" + x for x in states]
         elif kind in ("BindMany", "BindManyMulti"):
             bind, states = "BindMany", ["A", "B", "C"][:rng.randint(1, 3)]
-            tstates = ["T" + x for x in states] if rng.random() < 0.5 else states
+            # the source list in ANY order (the i-th target belongs to the i-th source)
+            rng.shuffle(states)
+            tstates = ["T" + x for x in states] if rng.random() < 0.5 else list(states)
             if kind == "BindManyMulti":
                 multi = [states[0]]
         elif kind.startswith("Manual"):
